@@ -9,7 +9,6 @@ import (
 	"sort"
 	"strings"
 
-
 	"github.com/dolthub/dolt/go/store/hash"
 	"github.com/dolthub/dolt/go/store/pool"
 	"github.com/dolthub/dolt/go/store/prolly/tree"
@@ -101,8 +100,8 @@ func c16Gen(r *rand.Rand, kind string, n int) []byte {
 }
 
 func c16Sizes(c *rig.Ctx, r *rand.Rand) []int {
-	sizes := []int{0, 1, 2, 19, 20, 21, 22, 31, 32, 33, 127, 128, 129, 240, 241, 248, 249, 2030, 2038, 2039, 2040, 2041, 2042, 2043, 2044, 2045, 2046, 2047, 2048, 2049, 2050, 2287, 2288, 2289,
-		c16Chunk - 2, c16Chunk - 1, c16Chunk, c16Chunk + 1, c16Chunk + 2, 2*c16Chunk - 1, 2 * c16Chunk, 2*c16Chunk + 1, 3 * c16Chunk, 16383, 16384, 5*c16Chunk + 17, 65535, 65536, 67823, 67824,
+	sizes := []int{0, 1, 2, 19, 20, 21, 22, 31, 32, 33, 127, 128, 129, 240, 241, 248, 249, 250, 251, 252, 254, 255, 256, 2030, 2038, 2039, 2040, 2041, 2042, 2043, 2044, 2045, 2046, 2047, 2048, 2049, 2050, 2287, 2288, 2289,
+		c16Chunk - 2, c16Chunk - 1, c16Chunk, c16Chunk + 1, c16Chunk + 2, 4994, 4995, 4996, 4998, 4999, 5000, 2*c16Chunk - 1, 2 * c16Chunk, 2*c16Chunk + 1, 3 * c16Chunk, 16383, 16384, 5*c16Chunk + 17, 65535, 65536, 67823, 67824,
 		20 * c16Chunk, 199*c16Chunk + 3999, 200 * c16Chunk, 200*c16Chunk + 1}
 	if c.Thorough() {
 		sizes = append(sizes, 201*c16Chunk, 400*c16Chunk, 400*c16Chunk+1, 1<<20, 2<<20, 2<<20+1)
@@ -324,4 +323,3 @@ func (x *c16Run) storeRoutes(v c16Value, idx int) {
 		c.Count("c16.three_level_values", 1)
 	}
 }
-
